@@ -494,6 +494,21 @@ Theorem C02_obj_json3_specified :
 Proof. exact j3_specified. Qed.
 Print Assumptions C02_obj_json3_specified.
 
+(* Known finding K9-C02 (found by the thorough tier; witness replayed on the real actions, corpus): an existing
+   custom resource owned by the release and named by no manifest of the deployed revision (kept by its keep policy when
+   an earlier revision dropped it, then named again) is adopted by handing kube.Client.Update the TARGET entry as its
+   own original; the two-way patch of (target, target) is empty and the successful upgrade applies nothing of the new
+   manifest entry. *)
+Theorem C02_obj_json2_adopted_noop_refuted :
+  exists (tm lm : list (string * tree)) (p : list string) (v : tree),
+    wf_tree (TM tm) = true /\ wf_tree (TM lm) = true /\
+    mget p (TM tm) = Some v /\ nonmap v = true /\
+    mget p (TM lm) <> Some v /\
+    j2 (TM tm) (TM tm) (TM lm) = TM lm /\
+    mget p (j2 (TM tm) (TM tm) (TM lm)) <> Some v.
+Proof. exact j2_adopted_noop_refuted. Qed.
+Print Assumptions C02_obj_json2_adopted_noop_refuted.
+
 (* one level of the result of the two-way patch, member by member ([entry]: what the patch says about a
    member of the target: nothing when both manifests agree) *)
 Theorem C02_obj_json2_level :
